@@ -259,7 +259,9 @@ static void one_step(int sc) {
 	/* every scenario allocates from its own, constant region of the pools: the number of allocations of the previous
 	 * scenario may depend on symbolic throw patterns, and a symbolic allocation counter makes every later pointer a
 	 * several-hundred-way case split */
+#ifdef IR_POOL
 	if (sc >= 0) { ir_ns = 160 + (unsigned)sc * 40; ir_nm = 64 + (unsigned)sc * 8; }
+#endif
 #endif
 #ifdef NATIVE
 	native_current_sc = sc;
@@ -369,7 +371,7 @@ int main(void) {
 	r_init(&CH);
 	f_eng_build(WITH_MON);
 	IR_ASSERT(!__ir_exc_pending, "harness: engine construction threw");
-#ifndef NATIVE
+#if !defined(NATIVE) && defined(IR_POOL)
 	IR_ASSERT(ir_ns <= 160 && ir_nm <= 64, "BOUND: engine construction used more pool blocks than reserved");
 #endif
 	for (unsigned t = 0; t < R_NT; t++) { descr_addr[t] = f_eng_descr_addr(t); cond_addr[t] = f_eng_cond_addr(t); }
@@ -395,7 +397,7 @@ int main(void) {
 #else
 	one_step(-1);
 #endif
-#ifdef PROBE_NS
+#if defined(PROBE_NS) && defined(IR_POOL)
 	__CPROVER_assert(ir_ns == PROBE_NS && ir_nm == PROBE_NM, "probe: allocation counters");
 #endif
 #ifdef WITNESS
